@@ -315,3 +315,4 @@ def run(chk):
     rule_boolean_predicates(chk, "C14.6")
     rule_global_helpers(chk, "C14.7")
     X.rule_prefix_tests_at_boundary(chk, "C14.8")
+    X.rule_exception_siblings(chk, "C14.9")
